@@ -94,6 +94,36 @@ def param_index(fn_item, pred):
     return None
 
 
+def role(crate, q, pred):
+    """how function q reads a role value (module / stage map / stage): (term, ('param', index)) for a parameter of that type, or
+    (term, ('field', name)) for a field of that type of the struct whose method q is (traversal state kept in a struct)"""
+    fi = crate.fns[q]
+    for i, p in enumerate(fi['params']):
+        if pred(p['ty'].replace(' ', '')):
+            return ('param', q, p['pat'].get('name')), ('param', i)
+    if fi.get('impl_of') and fi['params'] and fi['params'][0]['pat'].get('name') == 'self':
+        st = crate.structs.get(crate.resolve(fi['mod'], [fi['impl_of']]))
+        for fl in (st or {}).get('fields', []):
+            if pred(fl['ty'].replace(' ', '')):
+                return ('f', ('param', q, 'self'), fl['name']), ('field', fl['name'])
+    return None, None
+
+
+def role_arg(crate, args, dst_q, pred):
+    """the value a call with arguments `args` hands to function dst_q for the role"""
+    _, how = role(crate, dst_q, pred)
+    if how is None:
+        return None
+    if how[0] == 'param':
+        return args[how[1]] if how[1] < len(args) else None
+    recv = args[0] if args else None
+    if recv is None:
+        return None
+    if recv[0] == 'struct':
+        return recv[2].get(how[1])
+    return ('f', recv, how[1])
+
+
 def run(rep, sub=False):
     ogp = E.load()
     sch = S.load()
@@ -253,11 +283,8 @@ def run(rep, sub=False):
         e, scr, pos = hit
         target = ('vf', scr[1], scr[2], f)
         q = e['_root']     # parameters are those of the walker in whose summary the (possibly inlined helper's) update was recorded
-        fi = crate.fns[q]
-        sidx = param_index(fi, is_stage)
-        midx = param_index(fi, is_map)
-        stageP = ('param', q, fi['params'][sidx]['pat'].get('name')) if sidx is not None else None
-        mapP = ('param', q, fi['params'][midx]['pat'].get('name')) if midx is not None else None
+        stageP = role(crate, q, is_stage)[0]
+        mapP = role(crate, q, is_map)[0]
         val = e.get('value') if e['kind'] == 'assign' else None
         tgt = e.get('target')
         ok_union = val is not None and val[0] == 'mcall' and val[2] == 'union' and val[1] == tgt and val[3] == [stageP] or \
@@ -286,17 +313,22 @@ def run(rep, sub=False):
         if e['kind'] != 'reccall' or e['callee'] not in walkers:
             continue
         src = crate.fns[e['in']]
-        dst = crate.fns[e['callee']]
-        for role, pred in (('stage', is_stage), ('map', is_map), ('module', is_module)):
-            si, di = param_index(src, pred), param_index(dst, pred)
-            if si is None or di is None:
-                rep.bad('C03.2.propagation', f'{role}:{e["in"]}->{e["callee"]}', where(e), f'cannot find the {role} parameter of the walker', undecided=True)
+        for rname, pred in (('stage', is_stage), ('map', is_map), ('module', is_module)):
+            want = role(crate, e['in'], pred)[0]
+            got = role_arg(crate, e['args'], e['callee'], pred)
+            if want is None or got is None:
+                rep.bad('C03.2.propagation', f'{rname}:{e["in"]}->{e["callee"]}', where(e), f'cannot find the {rname} parameter / state field of the walker', undecided=True)
                 continue
             n_prop += 1
-            want = ('param', e['in'], src['params'][si]['pat'].get('name'))
-            got = e['args'][di] if di < len(e['args']) else None
-            rep.check(got == want, 'C03.2.propagation', f'{role}:{e["in"].split("::")[-1]}->{e["callee"].split("::")[-1]}@{e["line"] - src["line"]}', where(e),
-                      f'the recursive call does not pass the {role} parameter unchanged (passes {E.show(got, maxdepth=4) if got else None})', ok_detail=f'{role} passed unchanged')
+            rep.check(got == want, 'C03.2.propagation', f'{rname}:{e["in"].split("::")[-1]}->{e["callee"].split("::")[-1]}@{e["line"] - src["line"]}', where(e),
+                      f'the recursive call does not pass the {rname} unchanged (passes {E.show(got, maxdepth=4) if got else None})', ok_detail=f'{rname} passed unchanged')
+    # traversal state kept in a struct: its module / map / stage fields are never reassigned by the walkers
+    for e in effs:
+        if e['kind'] == 'assign' and isinstance(e.get('target'), tuple) and e['target'][0] == 'f' and e['target'][1][0] == 'param' and e['target'][1][2] == 'self':
+            fld = e['target'][2]
+            st_roles = [role(crate, e['in'], pred) for pred in (is_stage, is_map, is_module)]
+            if any(how == ('field', fld) for _, how in st_roles if how):
+                rep.bad('C03.2.propagation', f'state-field-reassigned:{fld}', where(e), f'the walker reassigns its `{fld}` state field during the walk: later calls no longer see the entry point\'s stage / map / module')
     rep.floor('parameter propagation checks on recursive walker calls', n_prop, 12)
     # ---- 3. seeding -------------------------------------------------------------------------------------------------------
     drivers = []
@@ -331,9 +363,11 @@ def run(rep, sub=False):
             rep.bad('C03.3.seed', f'seed:{q}', fwhere(q), 'no walker call recorded in the driver', undecided=True)
             continue
         e = rc[0]
-        dst = crate.fns[e['callee']]
-        stage = e['args'][param_index(dst, is_stage)]
-        mp = e['args'][param_index(dst, is_map)]
+        stage = role_arg(crate, e['args'], e['callee'], is_stage)
+        mp = role_arg(crate, e['args'], e['callee'], is_map)
+        if stage is None or mp is None:
+            rep.bad('C03.3.seed', f'seed:{q}', fwhere(q), 'cannot find the stage / map handed to the walker', undecided=True)
+            continue
         # stage table
         rows = {}
         for v, want in (('Vertex', 'VERTEX'), ('Fragment', 'FRAGMENT'), ('Compute', 'COMPUTE')):
@@ -359,10 +393,13 @@ def run(rep, sub=False):
         # visited sets fresh per entry point
         vis = []
         for x in es:
-            for a in x.get('args', []):
-                if isinstance(a, tuple) and a and a[0] == 'new' and a != mp:
-                    if not any(a == y for y in vis):
-                        vis.append(a)
+            for a0 in x.get('args', []):
+                # visited sets handed over directly or inside the traversal-state struct
+                cands = [a0] if isinstance(a0, tuple) and a0 and a0[0] == 'new' else (list(a0[2].values()) if isinstance(a0, tuple) and a0 and a0[0] == 'struct' else [])
+                for a in cands:
+                    if isinstance(a, tuple) and a and a[0] == 'new' and a != mp and 'Set' in a[1]:
+                        if not any(a == y for y in vis):
+                            vis.append(a)
         for a in vis:
             rep.check(outer[0] in a[3], 'C03.3.visited-per-entry', f'visited:{q}', fwhere(q),
                       f'the visited set {a[1]} is created outside the loop over entry points: a helper reached first from one stage is skipped for the next entry point, so its globals miss that stage',
@@ -434,9 +471,7 @@ def run(rep, sub=False):
 
 
 def module_param(crate, q, is_module):
-    fi = crate.fns[q]
-    i = param_index(fi, is_module)
-    return ('param', q, fi['params'][i]['pat'].get('name')) if i is not None else None
+    return role(crate, q, is_module)[0]
 
 
 def stages_argument(term):
